@@ -55,7 +55,7 @@ def rho(sig_post, sig_prior, tau):
     return (sig_post * sig_post) / (sig_prior * sig_prior + tau * tau)
 
 
-def vt_jump(case, cfg, tau, levels):
+def vt_jump(case, cfg, tau, levels, resummed=None):
     """Per team i: allowance on Omega_i for the discontinuity of the documented asymptotic V~ at x = 0.
     For a band mass below 1e-5 the library returns -x -/+ t, which jumps by 2t where x changes sign (the exact V~
     is 0 there; C17 allows 2t either side).  Two presentations of one game whose tied teams have (numerically)
@@ -77,7 +77,46 @@ def vt_jump(case, cfg, tau, levels):
                 continue
             if abs(th[i] - th[q]) > 1e3 * EPS * allmu:
                 continue
+            # the sign of x can only differ between the two presentations if the float sum of a team's mu can: a
+            # single-player team's mu is exact, and a team whose players are summed in the same order gives the same
+            # bits.  `resummed` = indices of teams whose summation differs between the presentations (None = all).
+            if resummed is not None and i not in resummed and q not in resummed:
+                continue
+            if len(case["teams"][i]) == 1 and len(case["teams"][q]) == 1 and case["teams"][i][0][0] == case["teams"][q][0][0]:
+                continue
             c2 = s2[i] + s2[q] + 2 * beta * beta
             n += s2[i] / c2 * 4 * kappa
+        out.append(n)
+    return out
+
+
+def vt_noise(case, cfg, tau, levels):
+    """Per team i: cancellation noise of the EXACT branch of V~ (taken when the band mass is >= 1e-5, i.e. t = kappa/c
+    above ~1.25e-5): V~ = (phi(-t-|x|) - phi(t-|x|)) / (Phi(t-|x|) - Phi(-t-|x|)) subtracts nearly equal doubles in
+    numerator and denominator, so its absolute rounding error is of order eps/t (3.7e-12 at t = 3e-5) and differs
+    between two presentations whose x differ in the last bit.  Allowance on Omega_i: sum over tied q whose band mass can
+    reach the exact branch of s_i^2/c_iq * 16 eps / t_iq.  Zero for non-TM models, untied games and pairs that are
+    certainly on the asymptotic branch (no cancellation there)."""
+    kind = KIND[case["model"]]
+    k = len(case["teams"])
+    if kind not in ("TMF", "TMP"):
+        return [0.0] * k
+    th, s2 = team_stats(case, tau)
+    beta, kappa = cfg["beta"], cfg["kappa"]
+    out = []
+    for i in range(k):
+        n = 0.0
+        for q in range(k):
+            if q == i or levels[q] != levels[i]:
+                continue
+            c = math.sqrt(s2[i] + s2[q] + 2 * beta * beta)
+            if kind == "TMP":
+                c = 2 * c
+            t = kappa / c
+            x = abs(th[i] - th[q]) / c
+            band = 0.5 * (math.erfc(-(t - x) / math.sqrt(2)) - math.erfc(-(-t - x) / math.sqrt(2)))
+            if band < 0.5e-5:
+                continue
+            n += s2[i] / c * 16 * EPS / t
         out.append(n)
     return out
